@@ -56,10 +56,26 @@ def seq_level(tier):
     return 4 if tier == "quick" else 5
 
 
+def _pool_text(idx):
+    """A document citing the structurally different strings of one extractor's pattern (pages with/without a
+    suffix, roman, placeholder ...) one after another: full citations that differ only slightly."""
+    from eyecite.tokenizers import EXTRACTORS
+
+    from vf.props import c16
+
+    n = len(EXTRACTORS) - 5
+    texts = c16._pattern_pool(idx % n)
+    return {"text": " Then ".join(t + "." for t in texts[:12]) + " Id. at 2."}
+
+
 def doc_strategy():
     from vf.props import c05
 
-    return st.one_of(legal.document(hostile=False, mutate=True), c05.scenario_text()).map(lambda t: {"text": t})
+    return st.one_of(
+        legal.document(hostile=False, mutate=True).map(lambda t: {"text": t}),
+        c05.scenario_text().map(lambda t: {"text": t}),
+        st.integers(0, 10000).map(_pool_text),
+    )
 
 
 def phases(tier, n_docs_quick=4000, n_docs_thorough=200000):
